@@ -59,7 +59,16 @@ struct Toks {
   std::vector<std::string> a; size_t i = 0;
   explicit Toks(const std::string& line) { std::istringstream is(line); std::string s; while (is >> s) a.push_back(s); }
   bool more() const { return i < a.size(); }
-  const std::string& next() { if (i >= a.size()) throw std::runtime_error("missing token"); return a[i++]; }
+  const std::string& next() {
+    if (i >= a.size()) {
+#if defined(__cpp_exceptions)
+      throw std::runtime_error("missing token");
+#else
+      std::fprintf(stderr, "missing token\n"); std::abort();
+#endif
+    }
+    return a[i++];
+  }
   int64_t i64() { return std::strtoll(next().c_str(), nullptr, 10); }
   uint64_t u64() { return std::strtoull(next().c_str(), nullptr, 10); }
   int i32() { return (int)std::strtol(next().c_str(), nullptr, 10); }
@@ -84,9 +93,13 @@ template <typename F> int main_loop(F handle) {
   std::string line;
   while (std::getline(std::cin, line)) {
     std::ostringstream os;
+#if defined(__cpp_exceptions)
     try { Toks t(line); handle(t, os); }
     catch (const std::exception& e) { os.str(""); os << "EXC " << e.what(); }
     catch (...) { os.str(""); os << "EXC unknown"; }
+#else
+    { Toks t(line); handle(t, os); }
+#endif
     std::cout << os.str() << '\n';
   }
   std::cout.flush();
